@@ -97,7 +97,16 @@ def run_case(ck, paths, idx):
     if a is None or b is None:
         return
     if a[0]["biotype"] != b[0]["biotype"]:
-        ck.count("skipped_kind_differs_between_spellings")
+        letters = "".join(s_ for _, s_ in recs).upper()
+        p1 = all(c in "ACGTUN" for c in letters)
+        p2 = sum(1 for c in letters if c in gen.AA_ONLY) * 4 >= len(letters)
+        if p1 or p2:
+            # the composition satisfies one of the recognition premises (C13) in every spelling, so the kind must not change with the spelling
+            ck.violation("kind-changes-with-spelling:%s%s" % ("nucleotide" if p1 else "protein", ":array-api" if arr else ""),
+                         "re-spelling (%s, rate %g) changes the detected kind from %d to %d although the letters satisfy premise %d of C13" % (
+                             mode, rate, a[0]["biotype"], b[0]["biotype"], 1 if p1 else 2), dict(ctx, input=recs, respelled=recs2, array_api=arr))
+        else:
+            ck.count("skipped_kind_differs_between_spellings")
         return
     det = {0: "protein", 1: "dna"}.get(a[0]["biotype"])
     if det is None:
